@@ -888,6 +888,40 @@ func (pf *ParserFacts) producerGuard(root ssa.Value, accepted ...atomKind) (bool
 			}
 		}
 	}
+	if ok, why := pf.appendGuards(callee, dead, modeCut, accepted...); ok {
+		return true, why
+	}
+	// the producer hands on the list that a reader of its own returned
+	if pf.prodDepth < 3 {
+		idx := 0
+		if ex, ok := root.(*ssa.Extract); ok {
+			idx = ex.Index
+		}
+		var inner ssa.Value
+		n := 0
+		for _, b := range callee.Blocks {
+			ret, ok := b.Instrs[len(b.Instrs)-1].(*ssa.Return)
+			if !ok || idx >= len(ret.Results) || isErrorReturn(ret) {
+				continue
+			}
+			if k, isConst := ret.Results[idx].(*ssa.Const); isConst && k.IsNil() {
+				continue
+			}
+			n++
+			inner = ret.Results[idx]
+		}
+		if n == 1 && inner != nil {
+			switch inner.(type) {
+			case *ssa.Extract, *ssa.Call:
+				pf.prodDepth++
+				ok, why := pf.producerGuard(inner, accepted...)
+				pf.prodDepth--
+				if ok {
+					return true, why
+				}
+			}
+		}
+	}
 	return pf.appendGuards(callee, dead, modeCut, accepted...)
 }
 
